@@ -127,6 +127,8 @@ def check_c09(out, tier):
     k = pipeline.SIZES[tier]
     items = []
     for c in base_cases(rnd, 110 * k, "c09p", ors=False):
+        if rnd.random() < .2:        # a document saved as "UTF-8 with signature": the byte order mark belongs to no statement
+            c["bom"] = True
         T = M.from_json_graph(c["graph"])
         T2 = list(T)
         rnd.shuffle(T2)
@@ -145,6 +147,13 @@ def check_c09(out, tier):
         rnd.shuffle(T2)
         items.append({"id": c["id"] + "f", "rel": "same", "how": "perm", "a": with_graph(c, grouped(True)), "b": with_graph(c, T2)})
         items.append({"id": c["id"] + "l", "rel": "same", "how": "perm", "a": with_graph(c, grouped(False)), "b": with_graph(c, grouped(True))})
+    # one subject, several objects of one property with different sets of classes
+    for i in range(30 * k):
+        T = gen.typed_fan_graph(rnd)
+        c = gen.case("c09t%d" % i, T, **gen.switches(rnd))
+        T2 = list(T)
+        rnd.shuffle(T2)
+        items.append({"id": c["id"], "rel": "same", "how": "perm", "a": c, "b": with_graph(c, T2)})
     # two classes that share a local name in different namespaces get one label (a recorded finding of C05 / C02): whatever the
     # library prints for them, it must not depend on the order of the statements
     for i in range(12 * k):
@@ -202,6 +211,11 @@ def check_c12(out, tier):
         pairs = [(a, b) for a in range(len(grid)) for b in range(a, len(grid))]
         # (threshold 0 against the thresholds at which leaves empty, then random pairs)
         for (a, b) in [(0, 3), (0, 5), (0, 7)] + rnd.sample(pairs, 3 if tier == "quick" else 8):
+            items.append({"id": "%s.%d.%d" % (c["id"], a, b), "rel": "thr", "a": with_cfg(c, thr=grid[a]), "b": with_cfg(c, thr=grid[b])})
+    # incoming disjunctions that lose all arms but one when the source shapes empty
+    for i in range(16 * k):
+        c = gen.inverse_or_case(rnd, "c12o%d" % i)
+        for (a, b) in [(0, 4), (0, 6), (3, 7), (0, 7)]:
             items.append({"id": "%s.%d.%d" % (c["id"], a, b), "rel": "thr", "a": with_cfg(c, thr=grid[a]), "b": with_cfg(c, thr=grid[b])})
     # one Shaper asked for several thresholds in any order (the profile is computed once and kept): what it answers for t1 and t2
     # is related in the same way, whatever was asked before - in particular a threshold that emptied a shape
@@ -346,6 +360,8 @@ def check_c14(out, tier):
             cl = gen.classes_of(T)
             c = with_cfg(c, mode="classes", targets=rnd.sample(cl, rnd.randint(0, len(cl))) + [M.EX + "Absent"], removeEmpty=False,
                          report=rnd.choice(["mixed", "abs"]), comments=True)
+        if rnd.random() < .3:       # "the same figures" also means the same rounding: a number of decimals applies to both directions
+            c = with_cfg(c, decimals=rnd.choice([1, 2, 2, 3]), report=rnd.choice(["mixed", "ratio"]), comments=True)
         items.append({"id": c["id"], "rel": "inverse", "a": with_cfg(c, inverse=True), "b": with_cfg(c, inverse=False),
                       "c": with_cfg(with_graph(c, R), inverse=False)})
     # incoming links of one property from subjects of several classes with very different frequencies, thresholds between them
@@ -359,6 +375,17 @@ def check_c14(out, tier):
                       "c": with_cfg(with_graph(c, R), inverse=False)})
     campaign(out, "C14", items, mine)
     pinned_campaigns(out, "C14", mine)
+    # "the same figures": with a number of decimals the incoming lines print their ratios under the same rounding rule as the
+    # outgoing ones (judged by the C01 clauses of the monitor on the run with inverse paths)
+    dec = []
+    for c in base_cases(rnd, 40 * k, "c14d", bnodes=False, schema_share=.2, inverse=True) + \
+            [gen.case("c14ds%d" % i, gen.sources_graph(rnd), **gen.switches(rnd, inverse=True)) for i in range(10 * k)]:
+        dec.append(with_cfg(c, inverse=True, report=rnd.choice(["mixed", "ratio"]), decimals=rnd.choice([1, 2, 2, 3, 4]), comments=True))
+    res, verdicts = pipeline.run_and_judge(out, dec, ["C01"], lambda c: False)
+    for c in dec:
+        for cl in verdicts[c["id"]]["clauses"]:
+            if cl.startswith("C01.") and cl != "C01.header":
+                out.violation("C14.figures(%s)" % cl, c, "inverse paths with decimals=%d" % c["cfg"]["decimals"])
     return ("triples of runs on IRI-node graphs: (G, inverse_paths), (G, no inverse), (Reverse(G), no inverse): the direct part of "
             "the first equals the second (counts, constraints, facts); the flipped inverse part of the first equals the "
             "non-literal direct part of the third outside tie groups")
@@ -376,6 +403,9 @@ def check_c16(out, tier):
         sizes = [sum(1 for s, p, o in T if p == M.RDF_TYPE and o[1] == cl) for cl in classes] or [1]
         cap = rnd.randint(1, max(sizes) + 1)
         cc = with_cfg(c, cap=cap)
+        if rnd.random() < .25:      # "document order" of a list of files is the order of the list, whatever the files are called
+            cc["channel"] = rnd.choice(["files", "zips"])
+            cc["parts"] = rnd.randint(2, 4)
         caps.append(cc)
         if cap >= max(sizes):
             same.append({"id": c["id"] + "big", "rel": "same", "how": "cap>=max", "a": with_cfg(c, cap=0), "b": cc})
@@ -473,6 +503,10 @@ def c17_graph(rnd):
         ["http://ex.org/a#", "http://ex.org/a#x/y", "http://ex.org/a#x/z"],
         ["urn:a:b", "urn:a:b:c:1", "urn:a:b:c:2"],
         ["ab", "ac"],
+        # schemes followed by one or three slashes: what the members share may be nothing but the scheme
+        ["file:///data/people/ann", "file:///export/staff/bob", "file:///data/people/cid"],
+        ["file:/srv/a/x1", "file:/var/b/x2"],
+        ["file:///data/people/ann", "file:///data/people/bob"],
     ]
     classes = [M.EX + "C%d" % i for i in range(rnd.randint(1, 3))]
     T = set()
